@@ -32,6 +32,8 @@ func c18(c *Ctx) {
 	c18keysPerGroup(c)
 	c18padding(c)
 	c18claims(c)
+	c18bind(c)
+	c18fullBody(c)
 }
 
 func c18jwt(c *Ctx) {
